@@ -33,6 +33,9 @@ type c19Case struct {
 	Seed     uint64    `json:"seed"`
 	Identity bool      `json:"identity"` // the repository has a user identity (else commands needing one fail in their pre-run)
 	Steps    []c19Step `json:"steps"`
+	// Worktree: the one-shot commands are typed in a linked working tree of the repository (git worktree add), or in
+	// a sub-directory of it, while the long-lived process was started in the main one: it is one repository, one lock
+	Worktree string `json:"worktree,omitempty"` // "" | linked | subdir
 }
 
 func genC19(t *rapid.T) c19Case {
@@ -56,6 +59,7 @@ func genC19(t *rapid.T) c19Case {
 		return s
 	})
 	c.Steps = rapid.SliceOfN(one, 4, 12).Draw(t, "steps")
+	c.Worktree = rapid.SampledFrom([]string{"", "", "linked", "subdir"}).Draw(t, "worktree")
 	// the non-trivial shape: a refusal while a holder lives, a kill, a recovery
 	if rapid.IntRange(0, 2).Draw(t, "planned") > 0 {
 		plan := []c19Step{{Kind: "holder"}, {Kind: "ok", Cmd: 1}, {Kind: "fail", Cmd: rapid.IntRange(0, 7).Draw(t, "pfail")}, {Kind: "ok", Cmd: rapid.IntRange(0, 5).Draw(t, "pok")}, {Kind: "stop", Signal: rapid.SampledFrom([]string{"KILL", "KILL", "KILL", "TERM", "INT"}).Draw(t, "psig")}, {Kind: "ok", Cmd: 0}}
@@ -205,6 +209,24 @@ func runC19(tb report.TB, rep *report.Reporter, c c19Case) {
 			return
 		}
 	}
+	cmdDir := dir
+	switch c.Worktree {
+	case "linked":
+		wt := dir + "-wt"
+		defer os.RemoveAll(wt)
+		if res := RunGit(dir, "-c", "user.name=x", "-c", "user.email=x@example.org", "commit", "-q", "--allow-empty", "-m", "init"); res.Code != 0 {
+			tb.Fatalf("harness: %s", res.Out)
+		}
+		if res := RunGit(dir, "worktree", "add", "-q", wt, "-b", "in-the-other-tree"); res.Code != 0 {
+			tb.Fatalf("harness: worktree add: %s", res.Out)
+		}
+		cmdDir = wt
+	case "subdir":
+		cmdDir = filepath.Join(dir, "src", "deep")
+		if err := os.MkdirAll(cmdDir, 0o755); err != nil {
+			tb.Fatalf("harness: %v", err)
+		}
+	}
 	var holder *holderProc
 	defer func() {
 		if holder != nil && holder.alive() {
@@ -343,7 +365,7 @@ func runC19(tb report.TB, rep *report.Reporter, c c19Case) {
 			}
 			lockBefore, hadLock := readLock(dir)
 			refsBefore := refsOf()
-			res := RunCLI(dir, args...)
+			res := RunCLI(cmdDir, args...)
 			lockAfter, hasLock := readLock(dir)
 			announced := holderAlive && holder.announced
 			if announced && !holder.alive() {
@@ -471,7 +493,7 @@ func runC19(tb report.TB, rep *report.Reporter, c c19Case) {
 			_ = os.Remove(filepath.Join(dir, ".git", "git-bug", "lock"))
 		}
 	}
-	rep.Case(strings.Join(kinds, ","), refusals > 0 && recoveries > 0, []string{fmt.Sprintf("identity:%v", c.Identity), fmt.Sprintf("refusals:%d", min(refusals, 3)), fmt.Sprintf("recoveries:%d", min(recoveries, 3)), fmt.Sprintf("kills:%d", min(kills, 2)), fmt.Sprintf("holder-ended-on-its-own:%v", holderDied > 0), fmt.Sprintf("identity-oddly-configured:%v", oddIdentity > 0)}, c)
+	rep.Case(strings.Join(kinds, ","), refusals > 0 && recoveries > 0, []string{fmt.Sprintf("identity:%v", c.Identity), fmt.Sprintf("refusals:%d", min(refusals, 3)), fmt.Sprintf("recoveries:%d", min(recoveries, 3)), fmt.Sprintf("kills:%d", min(kills, 2)), fmt.Sprintf("holder-ended-on-its-own:%v", holderDied > 0), fmt.Sprintf("identity-oddly-configured:%v", oddIdentity > 0), "commands-typed-in:" + c.Worktree}, c)
 }
 
 func TestC19Lock(t *testing.T) {
